@@ -6,6 +6,7 @@ mod rng;
 mod run;
 mod c05;
 mod c06;
+mod c07;
 mod c18;
 pub mod filters;
 
@@ -35,6 +36,7 @@ fn main() {
     match args[1].as_str() {
         "C05" => c05::run(&mut ctx),
         "C06" => c06::run(&mut ctx),
+        "C07" => c07::run(&mut ctx),
         "C18" => c18::run(&mut ctx),
         other => {
             eprintln!("unknown property {}", other);
